@@ -519,6 +519,10 @@ class SetAlg:
             # ∃x (A ∨ B) = ∃x A ∨ ∃x B ;  ∀x (A ∧ B) = ∀x A ∧ ∀x B
             parts = [self.cond((h, ("comp", c[1][1], b, c[1][3]))) for b in c[1][2][1:]]
             return f_or(*parts) if h == "any" else f_and(*parts)
+        if h in ("any", "all") and c[1][0] == "comp" and len(c[1][3]) >= 2:
+            r = self._miniscope(h, c[1])
+            if r is not None:
+                return r
         if h in ("any", "all") and c[1][0] == "comp" and len(c[1][3]) == 1:
             pat, it, conds = c[1][3][0]
             lit = self.strip(it)
@@ -530,6 +534,43 @@ class SetAlg:
                     parts.append(body)
                 return f_or(*parts) if h == "any" else f_and(*parts)
         return ("atom", self.canon(c))
+
+    def _miniscope(self, h: str, comp: Term) -> Formula | None:
+        """∃x∈S ∃y∈T (A(x) ∧ B(y)) = (∃x∈S A(x)) ∧ (∃y∈T B(y)) when the generators are independent; dually for ∀ with ∨."""
+        body, gens = comp[2], comp[3]
+        if not all(g[0][0] == "var" for g in gens):
+            return None
+        vs = [g[0] for g in gens]
+
+        def mentions(t):
+            return {v for v in vs if _mentions_var(t, v)}
+
+        for i, (pat, it, conds) in enumerate(gens):
+            if mentions(it) or any(mentions(k) - {pat} for k in conds):
+                return None
+        inner = "and" if h == "any" else "or"
+        parts = list(body[1:]) if body[0] == inner else [body]
+        groups: dict = {v: [] for v in vs}
+        free = []
+        for p_ in parts:
+            m = mentions(p_)
+            if len(m) > 1:
+                return None
+            if m:
+                groups[next(iter(m))].append(p_)
+            else:
+                free.append(p_)
+        out = []
+        for (pat, it, conds) in gens:
+            ps = groups[pat]
+            if ps:
+                b = ps[0] if len(ps) == 1 else (inner,) + tuple(ps)
+                out.append(self.cond((h, ("comp", comp[1], b, ((pat, it, conds),)))))
+            else:
+                ne = self.cond(("truth", ("comp", "set", pat, ((pat, it, conds),)))) if conds else self.cond(("truth", it))
+                out.append(ne if h == "any" else f_not(ne))
+        fr = [self.cond(x) for x in free]
+        return f_and(*out, *fr) if h == "any" else f_or(*out, *fr)
 
     def _len_cond(self, h: str, a: Term, b: Term) -> Formula | None:
         """Comparisons of len(X) with 0, 1, 2 over the partition {empty, exactly one, two or more}: `len(X) == 0`, `not X`, `len(X) < 1`
